@@ -1,5 +1,6 @@
 import HeimdallModel.Lemmas.SignerClaims
 import HeimdallModel.Lemmas.SignerStore
+import HeimdallModel.Lemmas.SignerShared
 import HeimdallModel.Lemmas.SignerConc
 import HeimdallModel.Lemmas.SignerEdges
 import HeimdallModel.Lemmas.SignerCache
@@ -218,6 +219,132 @@ theorem c16_registry_first_match_needs_distinct_ids :
     let t := sign clash ⟨"u", "iss", 0, 0⟩ ([] : Claims Nat)
     verifiesFirst (published [st1, clash]) t = false ∧ verifiesAny (published [st1, clash]) t = true := by
   decide
+
+/-! ## One key under several ids
+
+A key store file may list the very same private key in several blocks under different `X-Key-ID`s (the name a key had
+before a renaming next to the new one; bundles concatenated from several sources; other keys in between).  The
+property quantifies over all key stores "with/without key ids, several entries": whichever of the ids of such a key
+the finalizer is configured with, the token names that id and has to be resolvable in the published key set. -/
+
+/-- every key block of the file is published — one JWK per block, in file order, under the block's id (`X-Key-ID`,
+subject key identifier or the computed one), with the block's public key and certificate chain —, whichever key is
+configured and whether or not several blocks hold the same key material: nothing is merged, nothing left out -/
+theorem c16_every_listing_is_published (keyID : String) (raw : List RawEntry) (st : State)
+    (h : load keyID raw = some st) : EveryListingPublished raw st ∧ st.pubKeys.length = raw.length := by
+  obtain ⟨es, kse, hb, _, _, _, ha, _, _⟩ := load_parts keyID raw st h
+  have hf := allJwks_faces es st.pubKeys ha
+  have he := buildStore_eq_map raw [] es hb
+  have hface : EveryListingPublished raw st := by
+    unfold EveryListingPublished
+    rw [hf, he]
+    simp [entryOf]
+  refine ⟨hface, ?_⟩
+  have := congrArg List.length hface
+  simpa using this
+
+/-- a store that loads at all (under any configured id `k0`) can be used through the id of **every** block `e` whose
+certificate, if it has one, may sign — in particular through each of the ids of a key listed several times, the first
+one or a later one: the store loads, the active key is that block's key, the token names exactly that id, is signed
+with the key, the published list is the same whichever id is configured, and the token verifies against it the way
+go-jose resolves a key id in a JWK set -/
+theorem c16_any_id_of_a_key_selects_and_verifies (k0 : String) (raw : List RawEntry) (st0 : State)
+    (h0 : load k0 raw = some st0) (e : RawEntry) (he : e ∈ raw) (hu : e.chain = [] ∨ e.signUsable = true)
+    (i : SignIn) (custom : Claims α) :
+    ∃ st, load (kidOf e) raw = some st ∧ st.key = e.key ∧ st.pubKeys = st0.pubKeys ∧
+      (sign st i custom).kid = kidOf e ∧ (sign st i custom).signedBy = e.key ∧
+      (∃ j ∈ st0.pubKeys, j.kid = kidOf e ∧ j.pub = e.key.pub) ∧
+      verifiesFirst st0.pubKeys (sign st i custom) = true := by
+  obtain ⟨es, _, hb, _, hsup, _, ha, _, _⟩ := load_parts k0 raw st0 h0
+  have hes := buildStore_eq_map raw [] es hb
+  have hmem : entryOf e ∈ es := by rw [hes]; exact List.mem_map_of_mem he
+  have hnd := (buildStore_kids raw [] es hb).1
+  have hsel : selectEntry (kidOf e) es = some (entryOf e) := by
+    unfold selectEntry
+    rw [if_neg (kidOf_ne_empty e)]
+    exact find_of_nodup (·.kid) es (entryOf e) hnd hmem
+  have hs1 : (entryOf e).supported = true := List.all_eq_true.mp hsup _ hmem
+  cases hj : (entryOf e).jwk with
+  | none => simp [Entry.supported, Entry.jwk] at hs1 hj; simp [hj] at hs1
+  | some jwk =>
+    have hl := load_of_parts (kidOf e) raw es (entryOf e) st0.pubKeys jwk hb hsel hsup hu ha hj
+    have hf := jwk_fields _ _ hj
+    have hc := load_consistent _ _ _ hl
+    refine ⟨_, hl, rfl, rfl, hf.1, rfl, ⟨jwk, hc.active_published, hf.1, hf.2.1⟩, ?_⟩
+    exact verifiesFirst_of_consistent _ hc i custom
+
+def kShared : PrivKey := ⟨⟨.ecdsa, 256, 7⟩, 77⟩
+/-- the key store of corpus 18: the same P-256 key as `signer-2023` and as `signer-2024`, a P-521 key in between -/
+def storeShared : List RawEntry :=
+  [⟨"signer-2023", kShared, [], true, true⟩, ⟨"other", k2, [], true, true⟩, ⟨"signer-2024", kShared, [], true, true⟩]
+
+example : SharedKey storeShared ⟨"signer-2024", kShared, [], true, true⟩ ∧ (load "" storeShared).isSome = true ∧
+    (⟨"signer-2024", kShared, [], true, true⟩ : RawEntry) ∈ storeShared := by
+  refine ⟨⟨⟨"signer-2023", kShared, [], true, true⟩, by decide, rfl, by decide⟩, by decide, by decide⟩
+
+example : (load "signer-2024" storeShared).map (fun st => (st.jwk.kid, st.jwk.alg, st.key)) =
+      some ("signer-2024", "ES256", kShared) ∧
+    (load "signer-2024" storeShared).map (fun st => st.pubKeys.map Jwk.face) =
+      some [("signer-2023", kShared.pub, []), ("other", k2.pub, []), ("signer-2024", kShared.pub, [])] := by decide
+
+/-- for **every** generation with unique published ids: if the active JWK stands in the published list behind a JWK
+with the same public key (the finalizer is configured with a later id of a key listed several times), then a list that
+names each key material once holds no key with the token's id — the token cannot be resolved, let alone verified -/
+theorem c16_listing_each_key_once_unpublishes_later_ids (st : State) (hc : Consistent st) (pre post : List Jwk)
+    (hsplit : st.pubKeys = pre ++ st.jwk :: post) (j0 : Jwk) (h0 : j0 ∈ pre) (hp : j0.pub = st.jwk.pub)
+    (i : SignIn) (custom : Claims α) :
+    verifiesAny (distinctKeys st.pubKeys) (sign st i custom) = false ∧
+    verifiesFirst (distinctKeys st.pubKeys) (sign st i custom) = false ∧
+    verifiesFirst st.pubKeys (sign st i custom) = true := by
+  have hn := hc.kids_unique
+  rw [hsplit] at hn
+  have hdrop := distinctKeys_drops_later pre post st.jwk j0 hn h0 hp
+  rw [← hsplit] at hdrop
+  have hkid : (sign st i custom).kid = st.jwk.kid := rfl
+  refine ⟨?_, ?_, verifiesFirst_of_consistent st hc i custom⟩
+  · apply Bool.eq_false_iff.mpr
+    intro hv
+    obtain ⟨x, hx, hw⟩ := List.any_eq_true.mp hv
+    simp only [verifiesWith, Bool.and_eq_true, decide_eq_true_eq] at hw
+    exact hdrop x hx (hw.1.1.trans hkid)
+  · unfold verifiesFirst
+    cases hf : (distinctKeys st.pubKeys).find? (fun j => j.kid = (sign st i custom).kid) with
+    | none => rfl
+    | some x =>
+      have hx := List.mem_of_find?_eq_some hf
+      have hk := List.find?_some hf
+      exact absurd ((by simpa using hk : x.kid = (sign st i custom).kid).trans hkid) (hdrop x hx)
+
+def stShared : State :=
+  ⟨⟨"signer-2024", "ES256", "sig", kShared.pub, []⟩, kShared,
+   [⟨"signer-2023", "ES256", "sig", kShared.pub, []⟩, ⟨"other", "ES512", "sig", k2.pub, []⟩,
+    ⟨"signer-2024", "ES256", "sig", kShared.pub, []⟩]⟩
+
+example : load "signer-2024" storeShared = some stShared ∧ Consistent stShared ∧
+    stShared.pubKeys = [⟨"signer-2023", "ES256", "sig", kShared.pub, []⟩, ⟨"other", "ES512", "sig", k2.pub, []⟩] ++
+      stShared.jwk :: [] ∧ (⟨"signer-2023", "ES256", "sig", kShared.pub, []⟩ : Jwk).pub = stShared.jwk.pub :=
+  ⟨by decide, load_consistent "signer-2024" storeShared _ (by decide), by decide, by decide⟩
+
+/-- the token of the witnesses below: subject `subject-1`, signer name `demo`, TTL 10 minutes, no custom claims -/
+def tokShared (st : State) : Token Nat := sign st ⟨"subject-1", "demo", 0, 600000000000⟩ []
+
+/-- negative, evaluated: the key store of corpus 18 behind a key store that lists each key material once while it finds
+an entry under each id (`loadDistinct`, seed s5/C16-a).  Configured with `signer-2024` the token names `signer-2024`
+and is signed with the shared key, the published ids are `signer-2023, other`: no published key has the token's id.
+With `load` — the code — all three ids are published and the token verifies.  Configured with the first id, or with
+none, the variants hand out tokens that verify alike. -/
+theorem c16_listing_each_key_once_violates :
+    (loadDistinct "signer-2024" storeShared).map
+        (fun st => ((tokShared st).kid, (tokShared st).signedBy, st.pubKeys.map (·.kid),
+          verifiesAny st.pubKeys (tokShared st), verifiesFirst st.pubKeys (tokShared st))) =
+      some ("signer-2024", kShared, ["signer-2023", "other"], false, false) ∧
+    (load "signer-2024" storeShared).map
+        (fun st => ((tokShared st).kid, (tokShared st).signedBy, st.pubKeys.map (·.kid),
+          verifiesAny st.pubKeys (tokShared st), verifiesFirst st.pubKeys (tokShared st))) =
+      some ("signer-2024", kShared, ["signer-2023", "other", "signer-2024"], true, true) ∧
+    (loadDistinct "signer-2023" storeShared).map (fun st => verifiesFirst st.pubKeys (tokShared st)) = some true ∧
+    (loadDistinct "" storeShared).map (fun st => ((tokShared st).kid, verifiesFirst st.pubKeys (tokShared st))) =
+      some ("signer-2023", true) := ⟨by decide, by decide, by decide, by decide⟩
 
 /-! ## Public parts only -/
 
